@@ -769,6 +769,7 @@ def gen_C01(tier, rng):
     n_exact = 500 if tier == "quick" else 6000
     for i in range(n_exact):
         b = randprog.Builder(rng, exact=True, max_rank=rng.choice([2, 3, 4]))
+        b.start_p = 0.25 if i % 3 == 0 else 0.0
         root = b.build(rng.randint(1, 12))
         c = graph_case("rand_exact", b, root, b.seed_for(root), "random:exact")
         cases.append(add_tangents(c, rng))
@@ -1781,6 +1782,16 @@ def gen_C18(tier, rng):
         c["takes"] = takes
         c["adjudicate"] = takes
         cases.append(c)
+    # the training loop: batches of finished iterations and validation batches of forward-only passes must be
+    # sole owners again once the model has moved on
+    for _ in range(80 if tier == "quick" else 1000):
+        c = model_case(rng, tier)
+        c["takes"] = [i for i, x in enumerate(c["instrs"]) if x[0] == "takevec"]
+        if not c["takes"]:
+            continue
+        c["cls"] = "model_loop"
+        c.pop("model_meta", None)
+        cases.append(c)
     return cases
 
 
@@ -2126,6 +2137,8 @@ def model_case(rng, tier):
         ins.append(("probe", xi))
         ins.append(("probe", ti))
         ins.append(("probe", fi))
+        # the forward result goes out of scope, as `_result` does in a training loop
+        ins.append(("drop", fi))
         meta["iters"].append({"x": x, "xd": in_dims, "t": t, "forward": fi, "loss": bi, "params_after": pi,
                               "double": double, "input": xi})
         # a prediction / validation pass between training steps: forward without backward; once the model
